@@ -95,6 +95,23 @@ def run(chk, tier, seed):
             cells[b] ^= 1
             lines.append("%s %s" % (enc, mkflux.cells_to_bytes_lsb(cells).hex()))
             meta.append(("raw", enc, dict(kind=11, i=a * 100000 + b)))
+    # an intact ID, then nothing recognisable for a long stretch (every mark between it and a later sector's data field wiped), then
+    # that later data field: for every ordered pair of sectors of a full-size track.  However long the stretch (the stretches here go
+    # past 65536 cells on an 18-sector MFM track), the later data must not be delivered under the earlier address.
+    for enc, nsec in (("FM", 10), ("MFM", 18), ("MFM", 16)):
+        secs = {r: mkdisc.stamp(fc.SALT, r) for r in range(nsec)}
+        t = mkflux.build_track(enc, 1, 0, secs, gap3=(56 if nsec == 16 else None))
+        ids = [it for it in t.items if it["kind"] == "id"]
+        dats = [it for it in t.items if it["kind"] == "data"]
+        pairs = [(a, b) for a in range(nsec) for b in range(a + 1, nsec)]
+        if quick:
+            pairs = [pr for pr in pairs if pr[1] - pr[0] in (1, 2, 10, 11, 12, 13, nsec - 1) or (pr[0] + pr[1]) % 5 == 0]
+        for a, b in pairs:
+            cells = list(t.cells)
+            for p_ in range(ids[a]["end"] + 32, dats[b]["sync"]):
+                cells[p_] = 0
+            lines.append("%s %s" % (enc, mkflux.cells_to_bytes_lsb(cells).hex()))
+            meta.append(("raw", enc, dict(kind=12, i=a * 100 + b)))
     hook_trace = os.path.join(common.CACHE, "scratch", "c06-hooks-%d.ndjson" % os.getpid())
     if os.path.exists(hook_trace):
         os.unlink(hook_trace)
@@ -107,12 +124,12 @@ def run(chk, tier, seed):
     n_ok = min(len(lines), len(outs) - 1 if outs and outs[-1] == "" else len(outs))
     for (kind, enc, c), line, o in list(zip(meta, lines, outs))[:n_ok]:
         clean = 1 if o.startswith("[") else 0
-        ys = fc.yields_of(o, 4) if clean else []
+        ys = fc.yields_of(o, 32) if clean else []
         if kind == "decode":
             events.append(dict(e="decode", enc=enc, faults=c["faults"], cut=c["cut"], partial=c["partial"], yields=ys, clean=clean))
             chk.case((enc, tuple(c["faults"]), c["cut"], c["partial"]), nontrivial=(c["cut"] < 6 or any(f != "ok" for f in c["faults"])))
         else:
-            events.append(dict(e="raw", enc=enc, kind=c["kind"], i=c["i"], yields=ys, clean=clean))
+            events.append(dict(e="raw", enc=enc, kind=c["kind"], i=c["i"], yields=ys, clean=clean, addr=1 if c["kind"] in (10, 11, 12) else 0))
             chk.case((enc, "raw", c["kind"], c["i"]))
     chk.sample(next(e for e in events if e["e"] == "decode" and e["faults"][1] == "nomark"))
     chk.sample(events[-1])
